@@ -310,6 +310,13 @@ def check(prog, run):
     from ..canon import Canon
     MW = re.compile(r"^\w+\._middlewares$")
 
+    def cache_read(st, env, f):
+        """the returned expression, with the locals of this execution substituted, is `<x>._resolver_cache[...]`"""
+        if st.value is None:
+            return False
+        v = boolx.path_subst(st.value, boolx.path_env(env.get(boolx.STMTS, ()), st))
+        return isinstance(v, ast.Subscript) and "_resolver_cache" in ast.unparse(v.value)
+
     def applications(f, configured, depth=0):
         """set of (number of apply_middlewares calls, their middleware arguments) over the non-cache-hit returning executions."""
         try:
@@ -321,7 +328,7 @@ def check(prog, run):
         for k, st, env in exits:
             if k != "return":
                 continue
-            if isinstance(st.value, ast.Subscript) and "_resolver_cache" in ast.unparse(st.value):
+            if cache_read(st, env, f):
                 continue
             totals = {(0, ())}
             for c in env.get(boolx.CALLS, ()):
@@ -354,11 +361,12 @@ def check(prog, run):
     except ValueError as e:
         raise AnalysisError("C16.H5: %s" % e)
     for k, st, env in fexits:
-        if k != "return" or (isinstance(st.value, ast.Subscript) and "_resolver_cache" in ast.unparse(st.value)):
+        if k != "return" or cache_read(st, env, fr):
             continue
         atoms = {a: b for a, b in env.items() if a not in boolx.META}
         stmts = env.get(boolx.STMTS, ())
-        stores = [x for x in stmts if isinstance(x, ast.Assign) and ast.unparse(x.targets[0]).startswith("self._resolver_cache[")]
+        stores = [x for x in stmts if isinstance(x, ast.Assign) and isinstance(x.targets[0], ast.Subscript)
+                  and "_resolver_cache" in ast.unparse(boolx.path_subst(x.targets[0].value, boolx.path_env(stmts, x)))]
         in_handler = any(h.type is not None and "KeyError" in ast.unparse(h.type) for h in env.get(boolx.HANDLERS, ()))
         if not in_handler:
             run.report(r, "%s:Executor.field_resolver:not-on-miss" % EXE, fr.where(st), "a resolver is built outside the cache-miss branch (middlewares re-applied on every call)")
